@@ -143,7 +143,19 @@ MapInt(rule_pe, e) ==
     [] e[1] = "op" -> <<"op", e[2], MapInt(rule_pe, e[3]), MapInt(rule_pe, e[4])>>
     [] e[1] = "neg" -> <<"neg", MapInt(rule_pe, e[2])>>
     [] OTHER -> e
-Ref(rule, pe, e) == IF rule = "Simplify" /\ e[1] \notin {"int", "op", "neg"} THEN RefOne(rule, pe, e) ELSE MapInt(<<rule, pe>>, e)
+\* rules with parameters act on the FIRST definite integral of the expression only (as rules.py does: separate_integral()[0])
+RECURSIVE MapFirst(_, _)
+MapFirst(rule_pe, e) ==          \* <<done, e'>>
+  CASE e[1] = "int" -> <<TRUE, RefOne(rule_pe[1], rule_pe[2], e)>>
+    [] e[1] = "op" -> LET a == MapFirst(rule_pe, e[3]) IN
+                      IF a[1] THEN <<TRUE, <<"op", e[2], a[2], e[4]>>>>
+                      ELSE LET b == MapFirst(rule_pe, e[4]) IN <<b[1], <<"op", e[2], e[3], b[2]>>>>
+    [] e[1] = "neg" -> LET a == MapFirst(rule_pe, e[2]) IN <<a[1], <<"neg", a[2]>>>>
+    [] OTHER -> <<FALSE, e>>
+Parametric == {"Substitution", "IntegrationByParts", "SplitRegion"}
+Ref(rule, pe, e) == IF rule \in Parametric THEN MapFirst(<<rule, pe>>, e)[2]
+                    ELSE IF rule = "Simplify" /\ e[1] \notin {"int", "op", "neg"} THEN RefOne(rule, pe, e)
+                    ELSE MapInt(<<rule, pe>>, e)
 
 (* ---------------------------------- the universe ---------------------------------- *)
 Polys == UNION {[1..(d + 1) -> Coef] : d \in 0..MaxD}           \* coefficient sequences (integers), constant first
@@ -164,8 +176,8 @@ Universe ==
   \cup {<<"deriv", "x", b>> : b \in Bodies}
   \cup {<<"sum", "k", K(bb[1]), K(bb[2]), b>> : bb \in SumPairs, b \in SumBodies}
 
-VARIABLES start, steps, hist
-vars == <<start, steps, hist>>
+VARIABLES start, steps, hist, ref
+vars == <<start, steps, hist, ref>>
 Last == IF Len(steps) = 0 THEN start ELSE steps[Len(steps)]
 
 \* parameters offered for an expression: <<rule, <<string params>>, <<expression params>>>>
@@ -175,38 +187,49 @@ FirstInt(e) == CASE e[1] = "int" -> e
                  [] e[1] = "neg" -> FirstInt(e[2])
                  [] OTHER -> <<"none">>
 Factor(b) == IF b[1] = "op" /\ b[2] = "*" THEN {<<b[3], b[4]>>, <<b[4], b[3]>>} ELSE {}
-\* integration by parts: u one factor, v an antiderivative of the other one
+\* integration by parts: u one factor, v an antiderivative of the other one; or u the integrand and v = x
 PartsOf(i) == {<<uv[1], FromPoly(PAnti(ToPoly(uv[2], i[2])), i[2])>> : uv \in Factor(i[5])} \cup {<<i[5], <<"var", i[2]>>>>}
-Offers(e) ==
+NoP(r) == <<r, <<>>, <<>>>>
+Offers(e, depth) ==
   LET i == FirstInt(e) IN
-  {<<"Simplify", <<>>, <<>>>>}
-  \cup (IF i # <<"none">> /\ i[2] = "x"
-        THEN {<<"Linearity", <<>>, <<>>>>, <<"Antiderivative", <<>>, <<>>>>, <<"ExpandPolynomial", <<>>, <<>>>>}
-             \cup {<<"Substitution", <<"u">>, <<K(a), K(b)>>>> : a \in SubA, b \in SubB}
-             \cup {<<"SplitRegion", <<>>, <<K(c)>>>> : c \in Bnd}
-             \cup {<<"IntegrationByParts", <<>>, <<uv[1], uv[2]>>>> : uv \in PartsOf(i)}
-        ELSE IF i # <<"none">> THEN {<<"Antiderivative", <<>>, <<>>>>, <<"Linearity", <<>>, <<>>>>} ELSE {})
-  \cup (IF HasKind(e, "evalat") THEN {<<"EvalAt", <<>>, <<>>>>} ELSE {})
-  \cup (IF e[1] = "deriv" THEN {<<"DerivativeSimplify", <<>>, <<>>>>} ELSE {})
-  \cup (IF e[1] = "sum" THEN {<<"SumUnfold", <<>>, <<>>>>, <<"SummationSimplify", <<>>, <<>>>>} ELSE {})
+  IF depth = 0 THEN
+    {NoP("Simplify")}
+    \cup (IF i # <<"none">>
+          THEN {NoP("Linearity"), NoP("Antiderivative"), NoP("ExpandPolynomial")}
+               \cup {<<"Substitution", <<"u">>, <<K(a), K(b)>>>> : a \in SubA, b \in SubB}
+               \cup {<<"SplitRegion", <<>>, <<K(c)>>>> : c \in Bnd}
+               \cup {<<"IntegrationByParts", <<>>, <<uv[1], uv[2]>>>> : uv \in PartsOf(i)}
+          ELSE {})
+    \cup (IF e[1] = "deriv" THEN {NoP("DerivativeSimplify")} ELSE {})
+    \cup (IF e[1] = "sum" THEN {NoP("SumUnfold"), NoP("SummationSimplify")} ELSE {})
+  ELSE    \* later steps finish the calculation
+    (IF i # <<"none">> THEN {NoP("Antiderivative")} ELSE {})
+    \cup (IF i = <<"none">> /\ HasKind(e, "evalat") THEN {NoP("EvalAt")} ELSE {})
+    \cup (IF e[1] = "sum" THEN {NoP("SumUnfold")} ELSE {})
 
 \* the vector handed to the real code: the substitution parameter is the expression a * x + b
 VecOf(e, o, n) ==
   [e |-> e, rule |-> o[1], ps |-> o[2], step |-> n,
    pe |-> IF o[1] = "Substitution" THEN << Add(Mul(o[3][1], X), o[3][2]) >> ELSE o[3]]
 
-Init == TLCSet(7, <<>>) /\ start \in Universe /\ steps = <<>> /\ hist = <<>>
+\* values of an expression at the grid points of the start expression's variables
+ValTab(e, vs) == [env \in [vs -> Grid(1)] |-> Val(e, env)] @@ <<>>
+Init == /\ TLCSet(7, <<>>)
+        /\ start \in Universe /\ steps = <<>> /\ hist = <<>>
+        /\ ref = ValTab(start, FV(start))
 PerformRule(o) ==
   /\ steps' = Append(steps, Ref(o[1], o[3], Last))
   /\ hist' = Append(hist, o[1])
-  /\ UNCHANGED start
+  /\ UNCHANGED <<start, ref>>
   /\ TLCSet(7, Append(TLCGet(7), VecOf(Last, o, Len(steps))))
-Next == Len(steps) < MaxSteps /\ \E o \in Offers(Last) : PerformRule(o)
+Next == Len(steps) < MaxSteps /\ \E o \in Offers(Last, Len(steps)) : PerformRule(o)
 Spec == Init /\ [][Next]_vars
 
 (* ---------------------------------- invariants ---------------------------------- *)
-SameValueInv == Len(steps) > 0 => LET r == SameValue(start, Last, <<>>) IN ~r[1] /\ r[2]
-ExaminableInv == \A env \in [FV(Last) -> Grid(1)] : Val(Last, env)[1] = 0
+\* the property: every step has the value of the start expression (at every grid point; all defined and examinable)
+SameValueInv == \A env \in DOMAIN ref : ref[env][1] = 0 /\ (Len(steps) > 0 => Val(Last, env) = ref[env])
+\* the general comparison operator used by the trace specification gives the same verdict
+SameValueOp == Len(steps) > 0 => LET r == SameValue(start, Last, <<>>) IN ~r[1] /\ r[2]
 \* symbolic evaluation of a closed definite integral / of a derivative at the grid, against the pointwise evaluator
 TwoEvaluators ==
   /\ IsInt(Last) /\ ToPoly(Last[5], Last[2]) # PErr =>
@@ -215,7 +238,7 @@ TwoEvaluators ==
   /\ Last[1] = "deriv" /\ ToPoly(Last[3], Last[2]) # PErr =>
        \A t \in Grid(1) : Val(Last, [y \in {Last[2]} |-> t]) = <<0, PEval(PDeriv(ToPoly(Last[3], Last[2])), t), Z>>
 SimplifyIdempotent == LET s == Ref("Simplify", <<>>, Last) IN Ref("Simplify", <<>>, s) = s
-\* every rule is exercised (checked at the end of the run)
+\* written at the end of the run: every transition taken, as a vector for the real code
 Emit == LET vs == TLCGet(7) IN
         /\ Len(vs) > 0
         /\ ndJsonSerialize(IOEnv.VECTOR_FILE, vs)
